@@ -126,6 +126,11 @@ func vxFinalEqOf(m *MapOf[int, int], c *vxContentOf[int, int], k1, k2 int) bool 
 func VxH_MapOf_par2(opA, opB, tableLen, chain, minLen, mode, slots int) {
 	m, c := vxArbMapOf[int, int](tableLen, chain, minLen, slots, slots, VxIntHasher, vxIntKey, vxIntVal)
 	kA, kB := VxInt("kA"), VxInt("kB")
+	if mode >= 10 {
+		// racers on one key
+		VxAssume(kA == kB)
+		mode -= 10
+	}
 	if mode >= 0 {
 		// at most `mode` entries in the pre-state (mode < 0: unrestricted)
 		VxAssume(c.count() <= mode)
